@@ -92,9 +92,15 @@ def run(ctx, out):
             before = xcp.snapshot(os.fsencode(d))
             pre_dst = {p: e for p, e in before.items() if p.startswith(b"dst")}
         out.count("with_" + ("_".join(x.strip("-") for x in extra) or "plain"))
-        argv = [ctx.bins["xcp"], "-r", "-n", "--driver", driver, "-w", str(rng.choice([1, 2, 4]))] + extra + [src, dst]
+        # options that must not matter: verbosity, -f, --no-progress (= one block per file), -w 0, block size, one usable CPU
+        nflags, nw, ncpus = xcp.neutral(rng, force=False)   # -f and -n exclude each other
+        if "--no-progress" not in nflags and rng.random() < 0.3:
+            nflags += ["--block-size", rng.choice(["1", "4096", "2GB", "64MB"])]
+        for f in nflags:
+            out.count("neutral_" + f.strip("-") if f.startswith("-") else "neutral_block_size_value")
+        argv = [ctx.bins["xcp"], "-r", "-n", "--driver", driver, "-w", nw or str(rng.choice([1, 2, 4]))] + nflags + extra + [src, dst]
         r = xcp.run_supervised(sup, argv, d, d, tag="n", seed=rng.randrange(1 << 30), hold_permille=rng.choice([0, 150, 400]),
-                               hold_maxms=3, timeout_ms=30000)
+                               hold_maxms=3, timeout_ms=30000, cpus=ncpus)
         after = xcp.snapshot(os.fsencode(d))
         rep = dict(tree=trees.describe(tree), collisions=[repr(b"/".join(c)) for c in collisions], style=style, driver=driver,
                    argv=argv[1:], exit=r.exit, stderr=r.stderr[-300:])
@@ -170,7 +176,8 @@ def run(ctx, out):
                 os.symlink(os.path.join(d, "live-target"), tp)
         before = xcp.snapshot(os.fsencode(d))
         driver = ["parfile", "parblock"][k % 2]
-        argv = [ctx.bins["xcp"], "-r", "-n", "--driver", driver, "-w", str(rng.choice([1, 2, 4]))] + \
+        nflags, nw, ncpus = xcp.neutral(rng, force=False)   # -f and -n exclude each other
+        argv = [ctx.bins["xcp"], "-r", "-n", "--driver", driver, "-w", nw or str(rng.choice([1, 2, 4]))] + nflags + \
             [os.path.join(d, x) for x in names] + [os.path.join(d, "dst")]
         r = xcp.run_supervised(sup, argv, d, d, tag="n", seed=rng.randrange(1 << 30), hold_permille=rng.choice([0, 200]),
                                hold_maxms=3, timeout_ms=30000)
